@@ -240,6 +240,7 @@ pub fn gen_managed(rng: &mut Rng, cfg: &GenCfg) -> MScenario {
                     };
                     Op::Get {
                         t,
+                        fault: None,
                         enclosing: if cfg.cancel && rng.below(100) < 10 {
                             Some(small_ms(rng))
                         } else {
